@@ -132,6 +132,7 @@ func c12Worker(args []string) int {
 			s.Deb.Sig.KeyFile = testKey("privkey.asc") // passphrase protected
 			s.RPM.Sig.KeyFile = testKey("privkey.gpg")
 			s.APK.Sig.KeyFile = testKey("rsa.priv")
+			s.APK.Sig.KeyName = "verif" // (the maintainer, the fallback for the key name, is empty in some configurations)
 		}
 		y := s.YAML()
 		isSigned := func(f string) bool { return clocked || signed && (f == "deb" || f == "rpm" || f == "apk") }
